@@ -1,5 +1,5 @@
 //! C13 — SubstateLocks: lock/unlock streams on the real `SubstateLocks<()>`.
-use crate::util::*;
+use harness::util::*;
 use radix_common::prelude::*;
 use radix_engine::kernel::substate_locks::SubstateLocks;
 use std::io::Write;
@@ -118,4 +118,8 @@ impl Runner for R {
             _ => Answer::ok("bad-op"),
         }
     }
+}
+
+fn main() {
+    main_with(&[("c13", &A)]);
 }
